@@ -143,7 +143,8 @@ class Atmos:
 
     def __init__(self, kind, temps, wn, *, nlayers=None, pmin=1e2, pmax=1e5, mol='H2O', mix=1e-3,
                  star_T=5000.0, rp_over_rs=None, rp_over_d=None, planet_radius=1.0, planet_mass=1.0,
-                 ngauss=4, with_grey=False, register=True, star_radius=1.0, distance=1.0):
+                 ngauss=4, with_grey=False, register=True, star_radius=1.0, distance=1.0, absorption=None,
+                 opacity=None):
         from taurex.cache import OpacityCache
         from taurex.model import EmissionModel, DirectImageModel, TransmissionModel
         from taurex.chemistry import TaurexChemistry, ConstantGas
@@ -160,7 +161,9 @@ class Atmos:
         self.n = n
         self.table = {}
         self.mol = mol
-        if register:
+        if opacity is not None:
+            OpacityCache().add_opacity(opacity)
+        elif register:
             op = LayerOpacity(mol, self.wn, self._lookup)
             OpacityCache().add_opacity(op)
         chem = TaurexChemistry(fill_gases=['H2', 'He'], ratio=0.17)
@@ -181,7 +184,7 @@ class Atmos:
             m = DirectImageModel(ngauss=ngauss, **kw)
         else:
             m = TransmissionModel(**kw)
-        self.absorption = AbsorptionContribution()
+        self.absorption = absorption if absorption is not None else AbsorptionContribution()
         m.add_contribution(self.absorption)
         self.grey = None
         if with_grey:
@@ -227,3 +230,16 @@ def raw_quadrature(quad):
     mu_raw = np.array([2.0 / float(q[0]) - 1.0 for q in quad])
     w_raw = np.array([2.0 * float(Fraction(int(q[1][0]), int(q[1][1]))) for q in quad])
     return mu_raw, w_raw
+
+
+def ktable_arrays(press_layers, sigma_m2, ngauss):
+    """Per-layer coefficients sigma[l][w][g] (m^2) -> PickleKTable arrays on the pressure grid made of the
+    layer pressures (ascending) and a two-node temperature grid carrying the same values."""
+    pp = np.asarray(press_layers, dtype=float)
+    order = np.argsort(pp)
+    sig = np.asarray(sigma_m2, dtype=float)            # [l, w, g]
+    k = np.zeros((len(pp), 2, sig.shape[1], ngauss))
+    for row, l in enumerate(order):
+        k[row, 0] = sig[l] * 1e4
+        k[row, 1] = sig[l] * 1e4
+    return pp[order], np.array([50.0, 20000.0]), k
